@@ -8,13 +8,25 @@
 (* written the way the form is consumed (positionally, pair by pair, key   *)
 (* by key); every rejected input is an action that changes nothing.        *)
 (* given is a ghost: the last value supplied *for that name*.              *)
+(*                                                                         *)
+(* A dict may also bind a name to a DISTRIBUTION (a frozen scipy           *)
+(* distribution or a (sampler, args) tuple).  Such a name is re-drawn by   *)
+(* every integration / simulation (action Integrate) until an assignment   *)
+(* gives it a number again.  Its value tag is <<-c, k>>: "a draw of the    *)
+(* distribution written for name k in call c" -- the harness uses          *)
+(* distributions with narrow, pairwise disjoint supports, so an            *)
+(* evaluation shows which distribution (or number) a name is bound to.     *)
+(* These actions are part of the menu only when WithRandom is set.         *)
 (***************************************************************************)
 EXTENDS Integers, Sequences, FiniteSets, SequencesExt, TLC
 
 CONSTANTS NPar, MaxCalls,
-          WithScalar      \* include the bare-number form of one-parameter models
-VARIABLES pval, given, ncall, hist
-vars == <<pval, given, ncall, hist>>
+          WithScalar,     \* include the bare-number form of one-parameter models
+          WithRandom      \* include bindings to distributions and the re-drawing integrations; the menu of the other
+                          \* forms is then reduced to one representative each (the full menu is explored without it)
+VARIABLES pval, given, ncall, hist,
+          rnd             \* rnd[k]: name k is bound to a distribution
+vars == <<pval, given, ncall, hist, rnd>>
 
 Unset  == <<0, 0>>
 Names  == 1..NPar
@@ -27,11 +39,14 @@ Init == /\ pval = [k \in Names |-> Unset]
         /\ given = [k \in Names |-> Unset]
         /\ ncall = 0
         /\ hist = <<>>
+        /\ rnd = [k \in Names |-> FALSE]
 
-Log(act, form, names, after, ok) ==
+LogR(act, form, names, after, ok, rand) ==
     /\ ncall < MaxCalls
     /\ ncall' = ncall + 1
-    /\ hist' = Append(hist, [act |-> act, form |-> form, names |-> names, after |-> after, ok |-> ok])
+    /\ hist' = Append(hist, [act |-> act, form |-> form, names |-> names, after |-> after, ok |-> ok, rand |-> rand])
+Log(act, form, names, after, ok) == LogR(act, form, names, after, ok, <<>>)
+NoneRandom == [k \in Names |-> FALSE]
 
 (* ordered list / tuple / 1-d array / column array: the j-th value is for the j-th declared parameter *)
 Positional(form) ==
@@ -40,6 +55,7 @@ Positional(form) ==
     IN  /\ form \in {"list", "tuple", "array", "colarray"}
         /\ pval' = new
         /\ given' = [k \in Names |-> <<c, k>>]
+        /\ rnd' = NoneRandom                      \* a number for every name: nothing is re-drawn any more
         /\ Log("Positional", form, [j \in Names |-> j], new, TRUE)
 
 (* list / tuple of (name, value) pairs in any order: consumed pair by pair *)
@@ -52,6 +68,7 @@ Pairs(form, perm) ==
     IN  /\ form \in {"pairs-list", "pairs-tuple"}
         /\ pval' = new
         /\ given' = [k \in Names |-> <<c, CHOOSE j \in Names : perm[j] = k>>]
+        /\ rnd' = NoneRandom
         /\ Log("Pairs", form, [j \in Names |-> perm[j]], new, TRUE)
 
 (* dict keyed by name (str) or by symbol; a partial dict keeps the other values.       *)
@@ -63,18 +80,43 @@ Dict(form, sub) ==
         /\ (sub = Names \/ AllBound)
         /\ pval' = new
         /\ given' = [k \in Names |-> IF k \in sub THEN <<c, k>> ELSE given[k]]
+        /\ rnd' = [k \in Names |-> IF k \in sub THEN FALSE ELSE rnd[k]]     \* the names it mentions get numbers
         /\ Log("Dict", form, SetToSeq(sub), new, TRUE)
+
+(* a dict in which the names of rsub (at least one) are given a distribution and the other names of sub a number.   *)
+(* The value in force for a random name is a draw of ITS distribution.  A partial dict of this kind is only taken     *)
+(* when no name outside it is random (what should happen to those is not something C09 states).                     *)
+DictRandom(form, sub, rsub) ==
+    LET c == ncall + 1
+        new == [k \in Names |-> IF k \in rsub THEN <<-c, k>> ELSE IF k \in sub THEN <<c, k>> ELSE pval[k]]
+    IN  /\ WithRandom
+        /\ form = "dict-str"
+        /\ rsub # {} /\ rsub \subseteq sub
+        /\ (sub = Names \/ (AllBound /\ \A k \in Names \ sub : ~rnd[k]))
+        /\ pval' = new
+        /\ given' = [k \in Names |-> IF k \in sub THEN new[k] ELSE given[k]]
+        /\ rnd' = [k \in Names |-> IF k \in sub THEN k \in rsub ELSE rnd[k]]
+        /\ LogR("DictRandom", form, SetToSeq(sub), new, TRUE, SetToSeq(rsub))
+
+(* an integration / simulation: every random name is drawn again FROM ITS OWN distribution, every other name keeps   *)
+(* its number -- the abstract binding does not change *)
+Integrate(how) ==
+    /\ WithRandom /\ AllBound
+    /\ how \in {"integrate", "integrate2", "jump"}
+    /\ UNCHANGED <<pval, given, rnd>>
+    /\ Log("Integrate", how, <<>>, pval, TRUE)
 
 (* one-parameter models accept a bare number *)
 Scalar ==
     /\ WithScalar /\ NPar = 1
     /\ pval' = [k \in Names |-> <<ncall + 1, 1>>]
     /\ given' = pval'
+    /\ rnd' = NoneRandom
     /\ Log("Scalar", "scalar", <<1>>, pval', TRUE)
 
 (* ---- rejected inputs: an error is raised and nothing is bound, now or later ---- *)
 Reject(act, form, names) ==
-    /\ UNCHANGED <<pval, given>>
+    /\ UNCHANGED <<pval, given, rnd>>
     /\ Log(act, form, names, pval, FALSE)
 
 RejectWrongLength(form, len) ==
@@ -95,16 +137,33 @@ RejectBadType(form) ==
     /\ form \in {"string", "list-of-strings", "set"}
     /\ Reject("RejectBadType", form, <<>>)
 
-Next ==
-    \/ \E f \in {"list", "tuple", "array", "colarray"} : Positional(f)
-    \/ \E f \in {"pairs-list", "pairs-tuple"} : \E p \in Perms : Pairs(f, p)
-    \/ \E f \in {"dict-str", "dict-sym"} : \E s \in Subsets : Dict(f, s)
-    \/ Scalar
-    \/ \E f \in {"list", "tuple", "array", "rowarray", "pairs-list", "table"} : \E l \in {NPar - 1, NPar + 1} : RejectWrongLength(f, l)
-    \/ \E p \in Perms : \E j \in Names : (p = [k \in Names |-> k] /\ RejectUnknownPairs(p, j))
-    \/ \E f \in {"dict-str", "dict-sym"} : \E s \in SUBSET Names : RejectUnknownDict(f, s)
-    \/ RejectTooMany
-    \/ \E f \in {"string", "list-of-strings", "set"} : RejectBadType(f)
+(* every disjunct carries its own guard so that TLC keeps them as separate actions (simulation then draws one action, one
+   successor) *)
+FullMenu ==
+    \/ \E f \in {"list", "tuple", "array", "colarray"} : ~WithRandom /\ Positional(f)
+    \/ \E f \in {"pairs-list", "pairs-tuple"} : \E p \in Perms : ~WithRandom /\ Pairs(f, p)
+    \/ \E f \in {"dict-str", "dict-sym"} : \E s \in Subsets : ~WithRandom /\ Dict(f, s)
+    \/ ~WithRandom /\ Scalar
+    \/ \E f \in {"list", "tuple", "array", "rowarray", "pairs-list", "table"} : \E l \in {NPar - 1, NPar + 1} :
+          ~WithRandom /\ RejectWrongLength(f, l)
+    \/ \E p \in Perms : \E j \in Names : (~WithRandom /\ p = [k \in Names |-> k] /\ RejectUnknownPairs(p, j))
+    \/ \E f \in {"dict-str", "dict-sym"} : \E s \in SUBSET Names : ~WithRandom /\ RejectUnknownDict(f, s)
+    \/ ~WithRandom /\ RejectTooMany
+    \/ \E f \in {"string", "list-of-strings", "set"} : ~WithRandom /\ RejectBadType(f)
+
+(* with distributions: one representative of every deterministic form, every random dict whose random part is one name *)
+(* or all of its names, the three re-drawing calls, two rejections *)
+RandomMenu ==
+    \/ WithRandom /\ Positional(IF ncall % 2 = 0 THEN "list" ELSE "array")
+    \/ \E p \in Perms : WithRandom /\ Pairs("pairs-list", p)
+    \/ \E s \in Subsets : WithRandom /\ Dict(IF ncall % 2 = 0 THEN "dict-str" ELSE "dict-sym", s)
+    \/ \E s \in Subsets : \E r \in SUBSET Names :
+          WithRandom /\ r \subseteq s /\ (Cardinality(r) = 1 \/ r = s) /\ DictRandom("dict-str", s, r)   \* documented with string keys only
+    \/ \E h \in {"integrate", "integrate2", "jump"} : WithRandom /\ Integrate(h)
+    \/ WithRandom /\ RejectWrongLength("list", NPar + 1)
+    \/ \E s \in SUBSET Names : WithRandom /\ RejectUnknownDict("dict-str", s)
+
+Next == FullMenu \/ RandomMenu
 
 Spec == Init /\ [][Next]_vars
 
@@ -115,4 +174,11 @@ PartialKeepsOthers ==
     [][(hist' # hist /\ Last(hist').act = "Dict") =>
           \A k \in Names : (\A j \in 1..Len(Last(hist').names) : Last(hist').names[j] # k) => pval'[k] = pval[k]]_vars
 NeverHalfBound == (\E k \in Names : pval[k] # Unset) => AllBound
+(* a name is re-drawn exactly while the value in force for it is a distribution's *)
+RandomIffDistribution == \A k \in Names : rnd[k] <=> pval[k][1] < 0
+(* an assignment that gives a name a number ends its re-drawing; integrations never change what a name is bound to *)
+NumberEndsRedrawing ==
+    [][(hist' # hist /\ Last(hist').ok /\ Last(hist').act \in {"Positional", "Pairs", "Dict", "Scalar"}) =>
+          \A k \in Names : (\E j \in 1..Len(Last(hist').names) : Last(hist').names[j] = k) => ~rnd'[k]]_vars
+IntegrateKeepsBinding == [][(hist' # hist /\ Last(hist').act = "Integrate") => (pval' = pval /\ rnd' = rnd)]_vars
 =============================================================================
